@@ -87,6 +87,28 @@ def UniqueArc.deserialize {α σ ε δ : Type} (P : Payload α σ ε δ) (h : He
   | .ok v => let (h', u) := Handle.new h v; (h', .ok u)
   | .error e => (h, .error e)
 
+/-- releasing one owner of block `i` (a count of 0 = the block has been freed) -/
+def Heap.release {α : Type} (h : Heap α) (i : Nat) : Heap α :=
+  match h.blocks[i]? with
+  | some b => ⟨h.blocks.set i { b with count := b.count - 1 }⟩
+  | none => h
+
+/-- `Deserialize::deserialize_in_place(deserializer, place)` for `Arc<T>` / `UniqueArc<T>`: neither impl
+overrides it, so it is serde's provided method `*place = Deserialize::deserialize(deserializer)?` —
+a fresh handle is built first; only on success is it stored, which releases the handle that was in
+`place`.  Returns the heap, the result and the handle now in `place`. -/
+def Arc.deserializeInPlace {α σ ε δ : Type} (P : Payload α σ ε δ) (h : Heap α) (place : Handle α) (d : δ) :
+    Heap α × Except ε Unit × Handle α :=
+  match Arc.deserialize P h d with
+  | (h', .ok a) => (h'.release place.idx, .ok (), a)
+  | (h', .error e) => (h', .error e, place)
+
+def UniqueArc.deserializeInPlace {α σ ε δ : Type} (P : Payload α σ ε δ) (h : Heap α) (place : Handle α) (d : δ) :
+    Heap α × Except ε Unit × Handle α :=
+  match UniqueArc.deserialize P h d with
+  | (h', .ok a) => (h'.release place.idx, .ok (), a)
+  | (h', .error e) => (h', .error e, place)
+
 /-! ## Part 2 — a recording serializer / replaying deserializer and a payload universe -/
 
 /-- One callback on the recording serializer or on the replaying deserializer. -/
